@@ -65,11 +65,16 @@ WORKLOADS = {
         _f("f0", ["x0"], ["a"], None, {"x0": "whole"}, []),
         _f("f1", ["a"], ["b0", "b1"], None, {"a": "whole"}, []),
         _f("f2", ["b1", "x0"], ["c"], None, {"b1": "whole", "x0": "whole"}, [])]},
+    # a multi-output function without MapSpec that returns {name: value} and carries a custom output_picker
+    "no-mapspec-picker": {"sizes": SZ, "roots": {"x0": {"axes": [], "kind": "scalar"}}, "funcs": [
+        _f("f0", ["x0"], ["a"], None, {"x0": "whole"}, []),
+        {**_f("f1", ["a"], ["b0", "b1"], None, {"a": "whole"}, []), "picker": True},
+        _f("f2", ["b1", "x0"], ["c"], None, {"b1": "whole", "x0": "whole"}, [])]},
     "internal-first": {"sizes": SZ, "roots": {"x0": {"axes": ["i"], "kind": "ndarray"}}, "funcs": [
         _f("f0", ["x0"], ["y0"], "x0[i] -> y0[j, i]", {"x0": ["i"]}, ["j", "i"], ["j"], [2], "pipefunc", True),
         _f("f1", ["y0"], ["t"], "y0[:, i] -> t[i]", {"y0": [None, "i"]}, ["i"])]},
 }
-QUICK_W = ["map3+reduce", "tuple-out", "internal-axis"]
+QUICK_W = ["map3+reduce", "tuple-out", "internal-axis", "no-mapspec-picker"]
 STORAGES = ["file_array", "dict", "shared_memory_dict"]
 
 
